@@ -493,6 +493,10 @@ def proved(run):
     ob_add(run)
     ob_trim(run)
     ob_find_invalid(run)
+    try:
+        ob_unarycycleremove(run)
+    except (I.OutOfSubset, KeyError) as e:
+        run.obligation("C07/cfg.CFG.unarycycleremove/no-unary-cycle", "out-of-subset", detail=str(e))
 
     def est(fn, fact, **kw):
         nm = f"C07/cfg.{fn}/establishes-{fact}"
@@ -654,3 +658,161 @@ def compose(run, qual, name, table, start, kwargs, want, silent=False):
             run.obligation(name, "refuted", detail=f"stages {[t[0] for t in trace]} establish only {sorted(facts or [])}, need {sorted(want)}",
                            replay=dict(replayed=False, trace=[list(t) for t in trace]), signature=qual + ":composition")
     return facts
+
+
+# ------------------------------------------------------------------ unarycycleremove: no unary cycle (rank argument)
+def ob_unarycycleremove(run):
+    """rank(original X) = 2*bucket[X], rank(copy of X) = 2*bucket[X] + 1: every unary rule of the result strictly increases the rank."""
+    name = "C07/cfg.CFG.unarycycleremove/no-unary-cycle"
+    fn = source.find(CFG, "CFG.unarycycleremove")
+    run.function_under_contract("genlm.grammar.cfg.CFG.unarycycleremove", source.sha(fn))
+    bucket = z3.Function("bucket", S.SYM, z3.IntSort())
+    is_copy = z3.Function("is_copy", S.SYM, z3.BoolSort())
+    orig = z3.Function("orig_of", S.SYM, S.SYM)
+
+    def rank(x):
+        return z3.If(is_copy(x), 2 * bucket(orig(x)) + 1, 2 * bucket(x))
+
+    def harness(path):
+        it = I.Interp(path, uf=G.UF)
+        gs = G.GramSelf(path)
+        gs.rec_class = G.GramRecNoFork
+        X, Y1, Y2 = S.sym("Xs"), S.sym("Y1"), S.sym("Y2")
+        for v in (X, Y1, Y2):
+            path.assume(z3.Not(is_copy(v.e)))
+            path.assume(gs.N.mem(v.e))
+        path.assume(bucket(Y1.e) == bucket(Y2.e))      # B5: nodes of one block share the bucket
+        path.assume(bucket(X.e) != bucket(Y1.e))
+        Wself = z3.Const("G_XX", G.W)
+
+        class Graph:
+            def __pyvc_getitem__(self, interp, k, node):
+                if k[0] is X and k[1] is X:
+                    return I.Z(Wself)
+                return I.Z(S.fresh("g", G.W))
+
+            def __pyvc_getattr__(self, interp, nm, node):
+                if nm == "buckets":
+                    return BucketMap()
+                if nm == "Blocks":
+                    class W2:
+                        # closure of a 2-node block: iterating yields one *generic* pair of its nodes
+                        def __pyvc_iter__(self, interp):
+                            x1, x2 = S.fresh("x1"), S.fresh("x2")
+                            for v in (x1, x2):
+                                interp.path.assume(z3.Or(v == Y1.e, v == Y2.e))
+                            return [(I.Z(x1), I.Z(x2))]
+
+                        def __pyvc_getitem__(self, interp, k, node):
+                            return I.Z(S.fresh("Wc", G.W))
+
+                    w1 = {(X, X): I.Z(z3.Const("Wc_XX", G.W))}
+                    return [([X], w1), ([Y1, Y2], W2())]
+                raise I.OutOfSubset("graph." + nm)
+
+        class BucketMap:
+            def __pyvc_getitem__(self, interp, k, node):
+                return I.Z(bucket(I.zexpr(k)))
+
+            def __pyvc_getattr__(self, interp, nm, node):
+                if nm == "get":
+                    def get(i2, a, kw):
+                        x = I.zexpr(a[0])
+                        # symbols that are not nodes of the unary graph (terminals, symbols without rules) have no bucket
+                        if i2.path.decide(gs.N.mem(x)):
+                            return I.Z(bucket(x))
+                        return None
+                    return I.Native("get", get)
+                raise I.OutOfSubset("buckets." + nm)
+
+        gs.methods["_unary_graph"] = I.Native("_unary_graph", lambda i2, a, k: Graph())
+        log = []
+
+        def gen(i2, a, k):
+            c = S.fresh("copy")
+            i2.path.assume(is_copy(c))
+            log.append(c)
+            return I.Z(c)
+
+        genv = I.Env(None, {"_gen_nt": I.Native("_gen_nt", gen)})
+        # the copy created for x is a copy *of x*: read off the call `bot(x)`: instrument by wrapping the closure after definition
+        fobj = I.FuncObj(fn, genv, "CFG.unarycycleremove")
+        # set(): `acyclic` must support add / membership on symbolic symbols
+        class SymPySet:
+            def __init__(self):
+                self.items = []
+
+            def __pyvc_getattr__(self, interp, nm, node):
+                if nm == "add":
+                    return I.Native("add", lambda i2, a, k: self.items.append(a[0]))
+                raise I.OutOfSubset("set." + nm)
+
+            def __pyvc_contains__(self, interp, x):
+                cs = [I.zexpr(x) == I.zexpr(y) for y in self.items]
+                return I.Z(z3.Or(*cs)) if cs else False
+
+        it.assign_hooks["acyclic"] = lambda i2, v: SymPySet()
+        it.assign_hooks["_bot"] = lambda i2, v: S.SymDict()
+        orig_call = it.call
+
+        def call(f, args, kwargs, node=None):
+            r = orig_call(f, args, kwargs, node)
+            if isinstance(f, I.FuncObj) and f.name == "bot" and isinstance(r, I.Z) and any(r.e.eq(c) for c in log):
+                path.assume(orig(r.e) == I.zexpr(args[0]))
+            return r
+
+        it.call = call
+        try:
+            ret = it.call_func(fobj, [gs], {"trim": False})
+        except I.PyRaise as e:
+            return dict(raised=f"{e.kind}: {e.msg}", gs=gs)
+        goals = []
+        for a in ret.adds:
+            n = a["body"].length()
+            ne = n if not isinstance(n, int) else z3.IntVal(n)
+            if isinstance(n, int) and n != 1:
+                continue
+            if not it.path.decide(ne == 1):
+                continue
+            b0 = I.zexpr(a["body"].at(it, 0))
+            h = I.zexpr(a["head"])
+            # unary rule head -> b0 with b0 a node of the unary graph: the rank must strictly increase
+            goal = z3.Implies(z3.And(z3.Not(gs.V.mem(b0)), z3.Or(gs.N.mem(b0), is_copy(b0))), rank(h) < rank(b0))
+            goals.append(z3.Implies(a["guard"], goal) if a.get("guard") is not None else goal)
+        return dict(goals=(goals, len(ret.adds)), gs=gs)
+
+    try:
+        results = I.explore(harness, max_paths=2000)
+    except (I.OutOfSubset, I.PyRaise) as e:
+        run.obligation(name, "out-of-subset", detail=str(e))
+        return False
+    ms, sites = 0.0, 0
+    for path, r in results:
+        if "raised" in r:
+            run.obligation(name, "refuted", detail="raises " + r["raised"], replay=dict(replayed=False), signature="unarycycleremove:raises")
+            return False
+        gs = r["gs"]
+        goals, n = r["goals"]
+        for g in goals:
+            sites += 1
+            fs = list(path.pc) + [g]
+            inst = hyp_instances(gs, set(), None, fs)
+            # SCC_ORDER(B4) on the unary graph: a unary rule head -> y between different blocks has bucket[head] < bucket[y]
+            for rr in gs.generic:
+                if isinstance(rr.body, S.BaseSeq):
+                    y = rr.body.elem(0)
+                    inst.append(z3.Implies(z3.And(rr.body.L == 1, gs.N.mem(y), z3.Not(gs.V.mem(y)), bucket(rr.head.e) != bucket(y)),
+                                           bucket(rr.head.e) < bucket(y)))
+                    inst.append(z3.Not(is_copy(rr.head.e)))
+                    inst.append(z3.Implies(rr.body.L >= 1, z3.Not(is_copy(y))))
+            v, t, m, ge = G.prove_all(path, [g], extra=inst)
+            ms += t
+            if v != "proved":
+                run.obligation(name, v, ms=ms, detail="a unary rule of the result does not increase rank(original)=2*bucket / rank(copy)=2*bucket+1: a unary cycle is possible",
+                               replay=dict(replayed=False, goal=str(ge)[:300]), signature="unarycycleremove:no-unary-cycle")
+                return False
+    if sites == 0:
+        run.obligation(name, "out-of-subset", detail="vacuous: no unary rule emitted")
+        return False
+    run.obligation(name, "proved", ms=ms, detail=f"{len(results)} paths, {sites} unary add sites: every unary rule strictly increases the rank, hence no unary cycle (uses SCC_ORDER B4/B5)")
+    return True
